@@ -45,6 +45,7 @@ import (
 
 	apiv3 "github.com/projectcalico/api/pkg/apis/projectcalico/v3"
 	kerrors "k8s.io/apimachinery/pkg/api/errors"
+	metav1 "k8s.io/apimachinery/pkg/apis/meta/v1"
 	"pgregory.net/rapid"
 
 	"github.com/projectcalico/calico/libcalico-go/lib/backend/api"
@@ -83,6 +84,7 @@ const (
 	c26ListErr         = "err"
 	c26ListNotFound    = "notInstalled"
 	c26ListExpired     = "expired"
+	c26ListTooLarge    = "tooLarge" // one-shot "resource version too large" (lagging API server cache)
 	c26ListEmptyNoRev  = "emptyNoRev" // only honoured when the type's store is empty, else served as ok
 	c26WatchOK         = "ok"
 	c26WatchErr        = "err"
@@ -135,6 +137,14 @@ type c26Event struct {
 	mod  bool
 }
 
+type c26JournalEntry struct {
+	rev  int
+	kind string
+	name string
+	val  string
+	del  bool
+}
+
 type c26TypeState struct {
 	kind      string
 	objs      map[string]c26Obj
@@ -151,6 +161,9 @@ type c26TypeState struct {
 	// revision (the backend quirk the polling fallback exists for).
 	watchUnsupported  bool
 	emptyNoRevBackend bool
+	// livelock detector state
+	tooLargeRev   string
+	tooLargeCount int
 	// bookkeeping for the oracle / evidence
 	listsCompleted   int
 	listCalls        int
@@ -160,9 +173,22 @@ type c26TypeState struct {
 	faultsMidWatch   int
 }
 
+// c26LivelockAfter: this many consecutive Lists of one type at the same revision, each answered
+// "resource version too large" by a datastore whose revision is (and stays) lower, with nothing else
+// happening for that type, is reported as non-convergence.  Count-based, not time-based.
+const c26LivelockAfter = 40
+
 type c26Store struct {
 	mu      sync.Mutex
 	rev     int
+	// compactedBefore: Watch from a revision older than this is "too old" (history was lost when
+	// the datastore was restored from a backup).
+	compactedBefore int
+	restores        int
+	tooLargeLists   int    // Lists at a non-zero revision ahead of the datastore
+	journal         []c26JournalEntry // every write of the current lineage, for faithful backups
+	firstRev        int               // revision at which the case started (nothing was written before)
+	livelock        string // set by the livelock detector
 	types   map[string]*c26TypeState // by kind
 	changed chan struct{}            // closed and replaced on every change (broadcast)
 	wg      sync.WaitGroup           // watcher goroutines
@@ -191,8 +217,13 @@ func (s *c26Store) set(kind, name string) {
 	s.rev++
 	old, existed := ts.objs[name]
 	val := "v" + strconv.Itoa(s.rev)
+	if s.restores > 0 {
+		// Revisions are re-used after a restore; values never are (the harness waits for values).
+		val += "." + strconv.Itoa(s.restores)
+	}
 	ts.objs[name] = c26Obj{val: val, rev: s.rev}
 	ts.history = append(ts.history, c26Event{rev: s.rev, name: name, val: val, old: old.val, mod: existed})
+	s.journal = append(s.journal, c26JournalEntry{rev: s.rev, kind: kind, name: name, val: val})
 	s.logf("store: %s/%s=%s @%d", kind, name, val, s.rev)
 	s.bumpLocked()
 }
@@ -212,9 +243,59 @@ func (s *c26Store) delLocked(kind, name string) bool {
 	s.rev++
 	delete(ts.objs, name)
 	ts.history = append(ts.history, c26Event{rev: s.rev, name: name, del: true, val: old.val})
+	s.journal = append(s.journal, c26JournalEntry{rev: s.rev, kind: kind, name: name, del: true})
 	s.logf("store: delete %s/%s @%d", kind, name, s.rev)
 	s.bumpLocked()
 	return true
+}
+
+// restore models "the datastore was restored from a backup taken at revision backupRev": every
+// running watch breaks, the contents are exactly what they were at that revision (objects keep the
+// revisions they had then), the revision counter is back at backupRev and the event history is gone.
+//
+// Returns, per type, the number of Lists completed so far (taken in the same critical section), so
+// that the caller can wait until every type has completed a List against the restored datastore;
+// until then a cache may still hold a revision of the abandoned future, which nobody can honour.
+func (s *c26Store) restore(backupRev int, kinds []string) map[string]int {
+	s.mu.Lock()
+	defer s.mu.Unlock()
+	old := s.rev
+	before := map[string]int{}
+	for _, k := range kinds {
+		ts := s.types[k]
+		before[k] = ts.listsCompleted
+		if w := ts.watcher; w != nil && !w.ended {
+			w.killNow = c26EndClose
+		}
+		ts.objs = map[string]c26Obj{}
+		ts.history = nil
+	}
+	keep := 0
+	for _, j := range s.journal {
+		if j.rev > backupRev {
+			break
+		}
+		keep++
+		if j.del {
+			delete(s.types[j.kind].objs, j.name)
+		} else {
+			s.types[j.kind].objs[j.name] = c26Obj{val: j.val, rev: j.rev}
+		}
+	}
+	s.journal = s.journal[:keep]
+	s.rev = backupRev
+	s.compactedBefore = backupRev
+	s.restores++
+	var desc []string
+	for _, k := range kinds {
+		for n, o := range s.types[k].objs {
+			desc = append(desc, fmt.Sprintf("%s/%s=%s@%d", k, n, o.val, o.rev))
+		}
+	}
+	sort.Strings(desc)
+	s.logf("store: RESTORED from the backup taken at revision %d (was at %d); contents now %v", backupRev, old, desc)
+	s.bumpLocked()
+	return before
 }
 
 func c26KindOf(list model.ListInterface) string {
@@ -222,6 +303,27 @@ func c26KindOf(list model.ListInterface) string {
 }
 
 var c26ConnRefused = cerrors.ErrorDatastoreError{Err: syscall.ECONNREFUSED}
+
+// c26TooLargeErr is what the Kubernetes API server answers when asked for a resource version it
+// has not reached (storage.NewTooLargeResourceVersionError), wrapped the way the KDD backend wraps
+// unclassified Kubernetes errors.
+func c26TooLargeErr(want string, cur int) error {
+	ke := kerrors.NewTimeoutError(fmt.Sprintf("Too large resource version: %s, current: %d", want, cur), 1)
+	ke.ErrStatus.Details.Causes = []metav1.StatusCause{{Type: metav1.CauseTypeResourceVersionTooLarge, Message: "Too large resource version"}}
+	return cerrors.ErrorDatastoreError{Err: ke}
+}
+
+// revAhead reports whether a client-supplied revision is ahead of the datastore.
+func (s *c26Store) revAhead(revision string) bool {
+	if revision == "" || revision == "0" {
+		return false
+	}
+	n, err := strconv.Atoi(revision)
+	if err != nil {
+		panic(fmt.Sprintf("HARNESS-GAP: revision %q was never issued by the fake store", revision))
+	}
+	return n > s.rev
+}
 
 func (s *c26Store) List(ctx context.Context, list model.ListInterface, revision string) (*model.KVPairList, error) {
 	s.mu.Lock()
@@ -240,13 +342,32 @@ func (s *c26Store) List(ctx context.Context, list model.ListInterface, revision 
 	if outcome == c26ListOK && ts.emptyNoRevBackend && len(ts.objs) == 0 {
 		outcome = c26ListEmptyNoRev
 	}
+	stateTooLarge := false
+	if (outcome == c26ListOK || outcome == c26ListEmptyNoRev) && s.revAhead(revision) {
+		// The datastore's revision is behind what the client asks for (it went backwards).
+		outcome, stateTooLarge = c26ListTooLarge, true
+		s.tooLargeLists++
+	}
 	if ts.listAlwaysErr {
-		outcome = c26ListErr
+		outcome, stateTooLarge = c26ListErr, false
 		ts.listErrsSinceGone++
+	}
+	if stateTooLarge && ts.tooLargeRev == revision {
+		ts.tooLargeCount++
+		if ts.tooLargeCount >= c26LivelockAfter && s.livelock == "" {
+			s.livelock = fmt.Sprintf("%s: %d consecutive Lists at revision %s were each answered \"resource version too large\" (the datastore is at revision %d and would serve a List without a revision); the cache keeps retrying the same revision, so its stream never converges to the datastore's contents",
+				kind, ts.tooLargeCount, revision, s.rev)
+		}
+	} else if stateTooLarge {
+		ts.tooLargeRev, ts.tooLargeCount = revision, 1
+	} else {
+		ts.tooLargeRev, ts.tooLargeCount = "", 0
 	}
 	s.logf("List(%s, rev=%s) -> %s", kind, revision, outcome)
 	defer s.bumpLocked()
 	switch outcome {
+	case c26ListTooLarge:
+		return nil, c26TooLargeErr(revision, s.rev)
 	case c26ListErr:
 		return nil, cerrors.ErrorDatastoreError{Err: errors.New("injected list failure")}
 	case c26ListNotFound:
@@ -320,6 +441,14 @@ func (s *c26Store) Watch(ctx context.Context, list model.ListInterface, options 
 	if err != nil {
 		// The syncer only ever holds revisions this store handed out.
 		panic(fmt.Sprintf("HARNESS-GAP: Watch called with revision %q that the fake store never issued", options.Revision))
+	}
+	if from > s.rev {
+		s.logf("  -> resource version too large (datastore at %d)", s.rev)
+		return nil, c26TooLargeErr(options.Revision, s.rev)
+	}
+	if from < s.compactedBefore {
+		s.logf("  -> too old (history starts at %d)", s.compactedBefore)
+		return nil, kerrors.NewResourceExpired("too old resource version")
 	}
 	w := &c26Watcher{store: s, ts: ts, plan: plan, ch: make(chan api.WatchEvent), stop: make(chan struct{}), lastRev: from}
 	ts.watcher = w
@@ -726,7 +855,11 @@ func (c *c26Case) waitStore(what string, cond func() bool) {
 		c.store.mu.Lock()
 		ok := cond()
 		ch := c.store.changed
+		ll := c.store.livelock
 		c.store.mu.Unlock()
+		if ll != "" {
+			c.t.Fatalf("C26 violated: %s\n%s", ll, c.dump())
+		}
 		if ok {
 			return
 		}
@@ -745,11 +878,19 @@ func (c *c26Case) waitRec(what string, cond func() bool) {
 		ok := cond()
 		ch := c.rec.changed
 		c.rec.mu.Unlock()
+		c.store.mu.Lock()
+		sch := c.store.changed
+		ll := c.store.livelock
+		c.store.mu.Unlock()
+		if ll != "" {
+			c.t.Fatalf("C26 violated: %s\n%s", ll, c.dump())
+		}
 		if ok {
 			return
 		}
 		select {
 		case <-ch:
+		case <-sch:
 		case <-deadline:
 			c26Inconclusive(fmt.Sprintf("C26: %s not reached within %v\n%s", what, c26Deadline, c.dump()))
 		}
@@ -846,7 +987,9 @@ func TestVerifC26WatcherSyncer(t *testing.T) {
 	rapid.Check(t, func(t *rapid.T) {
 		nTypes := rapid.IntRange(1, 3).Draw(t, "numTypes")
 		stepKinds := c26Kinds[:nTypes] // the types the generated steps act on
-		store := &c26Store{types: map[string]*c26TypeState{}, changed: make(chan struct{}), rev: rapid.IntRange(1, 50).Draw(t, "initialRevision")}
+		store := &c26Store{types: map[string]*c26TypeState{}, changed: make(chan struct{}), rev: rapid.IntRange(20, 70).Draw(t, "initialRevision")}
+		store.compactedBefore = store.rev
+		store.firstRev = store.rev
 		procMode := map[string]string{}
 		var rts []watchersyncer.ResourceType
 		var cachingKinds []string
@@ -878,7 +1021,7 @@ func TestVerifC26WatcherSyncer(t *testing.T) {
 
 		kindGen := rapid.SampledFrom(stepKinds)
 		nameGen := rapid.SampledFrom([]string{"x", "y", "z"})
-		listOutcomeGen := rapid.SampledFrom([]string{c26ListErr, c26ListErr, c26ListNotFound, c26ListExpired, c26ListEmptyNoRev, c26ListOK})
+		listOutcomeGen := rapid.SampledFrom([]string{c26ListErr, c26ListErr, c26ListNotFound, c26ListExpired, c26ListTooLarge, c26ListEmptyNoRev, c26ListOK})
 		watchErrGen := rapid.SampledFrom([]string{c26WatchErr, c26WatchExpired, c26WatchExpired, c26WatchGone, c26WatchRefused, c26WatchTooMany, c26WatchNotSupp, c26WatchNotExist})
 		endGen := rapid.SampledFrom([]string{c26EndErrEvent, c26EndExpiredEvent, c26EndExpiredEvent, c26EndClose})
 		genWatchPlan := func(t *rapid.T) c26WatchPlan {
@@ -938,12 +1081,12 @@ func TestVerifC26WatcherSyncer(t *testing.T) {
 
 		var ops []string
 		outageDeletes := 0
-		wipeouts, pollPrimaries := 0, 0
+		wipeouts, pollPrimaries, restoresPolling, restoresWatchErrs := 0, 0, 0, 0
 		nSteps := rapid.IntRange(1, 14).Draw(t, "steps")
 		for i := 0; i < nSteps; i++ {
 			kind := kindGen.Draw(t, "kind")
 			short := c26KindShort[c26IndexOf(c26Kinds, kind)]
-			step := rapid.SampledFrom([]string{"set", "set", "del", "settle", "listFault", "watchPlan", "kill", "outage", "outage", "outage", "wipeout", "wipeout", "pollPrimary", "pollPrimary", "heal"}).Draw(t, "step")
+			step := rapid.SampledFrom([]string{"set", "set", "del", "settle", "listFault", "watchPlan", "kill", "outage", "outage", "outage", "wipeout", "wipeout", "pollPrimary", "pollPrimary", "heal", "restore", "restore"}).Draw(t, "step")
 			if !useMarker && (step == "pollPrimary" || step == "wipeout") {
 				step = "outage"
 			}
@@ -956,6 +1099,85 @@ func TestVerifC26WatcherSyncer(t *testing.T) {
 				}
 			}
 			switch step {
+			case "restore":
+				// The datastore's revision goes backwards (restore from an older backup) while one
+				// type is in a state in which the cache re-Lists from its stored, non-zero revision:
+				// it is polling (Watch unsupported), or its Watch fails repeatedly with generic errors.
+				mode := rapid.SampledFrom([]string{"polling", "polling", "watchErrors"}).Draw(t, "restoreWhile")
+				c.steps = append(c.steps, fmt.Sprintf("restore (%s is %s) {", kind, mode))
+				store.mu.Lock()
+				ts := store.types[kind]
+				ts.listPlan, ts.watchPlan = nil, nil
+				if mode == "polling" {
+					ts.watchUnsupported = true
+					if w := ts.watcher; w != nil && !w.ended {
+						w.killNow = c26EndClose
+					}
+				} else {
+					ts.watchUnsupported = false
+				}
+				store.bumpLocked()
+				store.mu.Unlock()
+				// Every cache gets to hold a current revision: all types settle, each step type receives
+				// one more write, all settle again.  From here on every revision a cache can present is
+				// newer than `horizon`, so any backup older than that is unambiguously "behind" them.
+				for _, k := range kinds {
+					c.settle(k)
+				}
+				store.mu.Lock()
+				horizon := store.rev
+				store.mu.Unlock()
+				if horizon < 2 {
+					c.steps = append(c.steps, "  (no older backup possible: skipped)", "}")
+					ops = append(ops, "b"+short)
+					break
+				}
+				for _, k := range stepKinds {
+					store.set(k, "bump")
+				}
+				for _, k := range kinds {
+					c.settle(k)
+				}
+				back := rapid.IntRange(1, horizon-1).Draw(t, "backupAgeInRevisions")
+				backupRev := horizon - back
+				nErrs := 0
+				if mode == "watchErrors" {
+					nErrs = rapid.IntRange(watchersyncer.MaxErrorsPerRevision, watchersyncer.MaxErrorsPerRevision+2).Draw(t, "watchErrors")
+					store.mu.Lock()
+					for j := 0; j < nErrs; j++ {
+						ts.watchPlan = append(ts.watchPlan, c26WatchPlan{Outcome: c26WatchErr})
+					}
+					store.mu.Unlock()
+				}
+				before := store.restore(backupRev, kinds)
+				c.steps = append(c.steps, fmt.Sprintf("  all watches break, datastore restored from the backup taken at revision %d (was past %d), %d generic Watch errors queued for %s", backupRev, horizon, nErrs, kind))
+				// Every type must get over it: a List completes against the restored datastore.
+				// (A cache whose revision is not newer than the backup is still consistent with the
+				// restored datastore - same lineage - and may simply re-establish its watch.)
+				c.waitStore("every type has completed a List, or re-established its watch, after the datastore was restored", func() bool {
+					for _, k := range kinds {
+						ts := store.types[k]
+						if ts.listsCompleted > before[k] {
+							continue
+						}
+						if w := ts.watcher; w != nil && !w.ended && w.caughtUp && w.killNow == "" {
+							continue // every watcher was broken by the restore, so this one is new
+						}
+						return false
+					}
+					return true
+				})
+				if mode == "polling" {
+					restoresPolling++
+					if useMarker {
+						c.steps = append(c.steps, "  poll checkpoint")
+						c.pollCheckpoint(kind, procMode, "after the datastore was restored to an older revision")
+					}
+				} else {
+					restoresWatchErrs++
+				}
+				c.steps = append(c.steps, "}")
+				ops = append(ops, "B"+short)
 			case "heal":
 				// The backend quirks of this type go away (Watch supported again, empty Lists carry a revision).
 				store.mu.Lock()
@@ -989,9 +1211,10 @@ func TestVerifC26WatcherSyncer(t *testing.T) {
 				}
 				c.settle(kind)
 				how := endGen.Draw(t, "killHow")
-				store.mu.Lock()
+				expiry := rapid.SampledFrom([]string{c26WatchExpired, c26WatchGone}).Draw(t, "outageExpiry")
+				store.mu.Lock() // (never draw while holding the lock: a draw may abort the case)
 				ts.emptyNoRevBackend = true
-				ts.watchPlan = []c26WatchPlan{{Outcome: rapid.SampledFrom([]string{c26WatchExpired, c26WatchGone}).Draw(t, "outageExpiry")}}
+				ts.watchPlan = []c26WatchPlan{{Outcome: expiry}}
 				var names []string
 				for n := range ts.objs {
 					names = append(names, n)
@@ -1091,18 +1314,22 @@ func TestVerifC26WatcherSyncer(t *testing.T) {
 				// it would resume from is no longer served, and objects change/vanish meanwhile.
 				c.steps = append(c.steps, "outage "+kind+" {")
 				c.settle(kind)
-				store.mu.Lock()
-				ts := store.types[kind]
 				nf := rapid.IntRange(0, 2).Draw(t, "outageWatchErrors")
+				var wp []c26WatchPlan
 				for j := 0; j < nf; j++ {
-					ts.watchPlan = append(ts.watchPlan, c26WatchPlan{Outcome: rapid.SampledFrom([]string{c26WatchErr, c26WatchRefused, c26WatchTooMany}).Draw(t, "outageWatchErr")})
+					wp = append(wp, c26WatchPlan{Outcome: rapid.SampledFrom([]string{c26WatchErr, c26WatchRefused, c26WatchTooMany}).Draw(t, "outageWatchErr")})
 				}
-				ts.watchPlan = append(ts.watchPlan, c26WatchPlan{Outcome: rapid.SampledFrom([]string{c26WatchExpired, c26WatchGone}).Draw(t, "outageExpiry")})
+				wp = append(wp, c26WatchPlan{Outcome: rapid.SampledFrom([]string{c26WatchExpired, c26WatchGone}).Draw(t, "outageExpiry")})
 				nlf := rapid.IntRange(0, 2).Draw(t, "outageListErrors")
+				var lp []string
 				for j := 0; j < nlf; j++ {
-					ts.listPlan = append(ts.listPlan, rapid.SampledFrom([]string{c26ListErr, c26ListExpired}).Draw(t, "outageListErr"))
+					lp = append(lp, rapid.SampledFrom([]string{c26ListErr, c26ListExpired}).Draw(t, "outageListErr"))
 				}
 				how := endGen.Draw(t, "killHow")
+				store.mu.Lock() // (never draw while holding the lock: a draw may abort the case)
+				ts := store.types[kind]
+				ts.watchPlan = append(ts.watchPlan, wp...)
+				ts.listPlan = append(ts.listPlan, lp...)
 				var names []string
 				for n := range ts.objs {
 					names = append(names, n)
@@ -1310,16 +1537,42 @@ func TestVerifC26WatcherSyncer(t *testing.T) {
 		if pollPrimaries > 0 {
 			classes = append(classes, "polling-with-caching-processor-primary-deleted")
 		}
+		if restoresPolling > 0 {
+			classes = append(classes, "datastore-revision-went-backwards-while-polling")
+		}
+		if restoresWatchErrs > 0 {
+			classes = append(classes, "datastore-revision-went-backwards-while-watch-failing")
+		}
+		store.mu.Lock()
+		tooLarge := store.tooLargeLists
+		store.mu.Unlock()
+		if tooLarge > 0 {
+			classes = append(classes, "list-at-nonzero-revision-answered-too-large")
+		}
 		key := strings.Join(ops, "")
-		rec.SizedCase((faults > 0 && needDel > 0) || wipeouts > 0 || pollPrimaries > 0, key, len(ops), func() any {
+		rec.SizedCase((faults > 0 && needDel > 0) || wipeouts > 0 || pollPrimaries > 0 || tooLarge > 0, key, len(ops), func() any {
 			return map[string]any{"ops": key, "steps": c.steps, "lists": lists, "watches": watches}
 		}, classes...)
 	})
 }
 
 // c26Tail keeps failure dumps readable.
-func c26Tail(ss []string) []string {
+func c26Tail(in []string) []string {
 	const n = 150
+	// Collapse runs of identical lines (polling produces thousands).
+	var ss []string
+	for i := 0; i < len(in); {
+		j := i
+		for j < len(in) && in[j] == in[i] {
+			j++
+		}
+		if j-i > 1 {
+			ss = append(ss, fmt.Sprintf("%s   (x%d)", in[i], j-i))
+		} else {
+			ss = append(ss, in[i])
+		}
+		i = j
+	}
 	if len(ss) <= n {
 		return ss
 	}
